@@ -20,6 +20,7 @@ type mctx struct {
 	err      error
 	children []*mctx
 	tag      string
+	cause    error
 }
 
 func (c *mctx) Deadline() (time.Time, bool) { return c.parent.Deadline() }
@@ -144,4 +145,83 @@ func Acquire(ctx context.Context) {
 	if c, ok := ctx.Value(&key).(*mctx); ok && c.err != nil {
 		mc.RaceAcquire(unsafe.Pointer(c))
 	}
+}
+
+// WithCancelCause mirrors context.WithCancelCause.
+func WithCancelCause(parent context.Context) (context.Context, context.CancelCauseFunc) {
+	c := newCtx(parent)
+	return c, func(cause error) {
+		if mc.Killing() {
+			return
+		}
+		mc.YieldObjs("ctx.cancel", c.tree())
+		if c.err == nil {
+			c.cause = cause
+		}
+		c.cancel(context.Canceled)
+	}
+}
+
+// Cause mirrors context.Cause for scheduler-visible contexts.
+func Cause(ctx context.Context) error {
+	if c, ok := ctx.Value(&key).(*mctx); ok {
+		if c.cause != nil {
+			return c.cause
+		}
+		return c.err
+	}
+	return context.Cause(ctx)
+}
+
+// WithoutCancel mirrors context.WithoutCancel (values kept, cancellation dropped).
+func WithoutCancel(parent context.Context) context.Context {
+	return withoutCancel{parent}
+}
+
+type withoutCancel struct{ p context.Context }
+
+func (withoutCancel) Deadline() (time.Time, bool) { return time.Time{}, false }
+func (withoutCancel) Done() <-chan struct{}       { return nil }
+func (withoutCancel) Err() error                  { return nil }
+func (w withoutCancel) Value(k any) any {
+	if k == any(&key) {
+		return nil
+	}
+	return w.p.Value(k)
+}
+
+// AfterFunc mirrors context.AfterFunc: f runs in its own thread once ctx is done.
+func AfterFunc(ctx context.Context, f func()) (stop func() bool) {
+	stopped, started := false, false
+	var o int
+	mc.Go(func() {
+		if mc.Select(false, mc.RecvCase(ctx.Done())) == 0 {
+			run := false
+			mc.Point(&mc.Op{Kind: "ctx.afterfunc", Obj: &o, Alts: func() int { return 1 }, Do: func(int) {
+				if !stopped {
+					started, run = true, true
+				}
+			}})
+			if run {
+				f()
+			}
+		}
+	})
+	return func() bool {
+		ok := false
+		mc.Point(&mc.Op{Kind: "ctx.afterfunc.stop", Obj: &o, Alts: func() int { return 1 }, Do: func(int) {
+			if !started && !stopped {
+				stopped, ok = true, true
+			}
+		}})
+		return ok
+	}
+}
+
+func WithTimeoutCause(parent context.Context, d time.Duration, _ error) (context.Context, context.CancelFunc) {
+	return WithTimeout(parent, d)
+}
+
+func WithDeadlineCause(parent context.Context, t time.Time, _ error) (context.Context, context.CancelFunc) {
+	return WithTimeout(parent, 0)
 }
